@@ -130,4 +130,5 @@ class C18(Check):
 
 
 def main(tier, seed, replay=None):
-    return C18().main(tier, seed, replay)
+    from harness import densex
+    return densex.extend(C18, densex.D18())().main(tier, seed, replay)
